@@ -354,3 +354,51 @@ Theorem alu_step_math E cx op s : stack_ok (s_stack s) ->
 Proof.
   intros H. cbn [exec_plain]. rewrite alu_matches_math_lemma by (apply nthz_ok; assumption). reflexivity.
 Qed.
+
+(* ------------------------------------------------------------------ more fuel never changes a finished run *)
+Lemma step_mono runf rung E cx s :
+  (forall cx' s', r_out (runf cx' s') <> O_fuel -> rung cx' s' = runf cx' s') ->
+  (forall res, step runf E cx s = S_halt res -> r_out res <> O_fuel) ->
+  step rung E cx s = step runf E cx s.
+Proof.
+  intros Hsame Hnf. unfold step in *. destruct (pre cx s) as [r|i s1 cg]; [reflexivity|].
+  destruct i; try reflexivity.
+  unfold exec_call, do_call in *.
+  destruct (1024 <? c_depth cx); [reflexivity|]. destruct (precompile _); [reflexivity|].
+  destruct (code_of E _); [reflexivity|].
+  match goal with |- context [rung ?c ?st] => set (cx' := c) in *; set (s' := st) in * end.
+  assert (D : r_out (runf cx' s') = O_fuel \/ r_out (runf cx' s') <> O_fuel).
+  { destruct (r_out (runf cx' s')); (left; reflexivity) || (right; discriminate). }
+  destruct D as [Hf|Hn].
+  - exfalso. rewrite Hf in Hnf. cbn in Hnf. eapply Hnf; reflexivity.
+  - rewrite (Hsame _ _ Hn). reflexivity.
+Qed.
+
+Lemma run_mono f : forall E cx s, r_out (run f E cx s) <> O_fuel ->
+  forall f', (f <= f')%nat -> run f' E cx s = run f E cx s.
+Proof.
+  induction f as [|f IH]; intros E cx s Hnf f' Hle. { cbn in Hnf. congruence. }
+  destruct f' as [|g]; [lia|]. assert (Hfg : (f <= g)%nat) by lia.
+  cbn [run] in *.
+  assert (Hstep : step (run g E) E cx s = step (run f E) E cx s).
+  { apply step_mono.
+    - intros cx' s' H. apply IH; assumption.
+    - intros res Hres. rewrite Hres in Hnf. exact Hnf. }
+  rewrite Hstep. destruct (step (run f E) E cx s) as [s2|res]; [|reflexivity].
+  apply IH; assumption.
+Qed.
+
+Theorem call_top_fuel_irrelevant f f' E static to input gas w :
+  r_out (call_top f E static to input gas w) <> O_fuel -> (f <= f')%nat ->
+  call_top f' E static to input gas w = call_top f E static to input gas w.
+Proof.
+  intros Hnf Hle. unfold call_top, do_call in *.
+  destruct (1024 <? 0); [reflexivity|]. destruct (precompile to); [reflexivity|].
+  destruct (code_of E to); [reflexivity|].
+  match goal with |- context [run f' E ?c ?st] => set (cx' := c) in *; set (s' := st) in * end.
+  assert (D : r_out (run f E cx' s') = O_fuel \/ r_out (run f E cx' s') <> O_fuel).
+  { destruct (r_out (run f E cx' s')); (left; reflexivity) || (right; discriminate). }
+  destruct D as [Hf|Hn].
+  - exfalso. rewrite Hf in Hnf. apply Hnf. reflexivity.
+  - rewrite (run_mono f E cx' s' Hn f' Hle). reflexivity.
+Qed.
